@@ -296,9 +296,10 @@ func sendSpec(spec *tls.ClientHelloSpec, sni string) (hello []byte, errs string)
 func init() {
 	hlib.Register("jsonhellos", func(in []byte, out *hlib.Out) error {
 		var req struct {
-			IDs []string
-			N   int
-			SNI string
+			IDs     []string
+			N       int
+			SNI     string
+			Padlens []int // besides the hello as sent: the same hello with its padding extension set to each of these lengths
 		}
 		if err := json.Unmarshal(in, &req); err != nil {
 			return err
@@ -307,20 +308,24 @@ func init() {
 			req.SNI = "example.com"
 		}
 		type job struct {
-			id string
-			k  int
+			id  string
+			k   int
+			pad int // 0 = hello as the parrot sent it
 		}
 		var jobs []job
 		for _, id := range req.IDs {
 			for k := 0; k < req.N; k++ {
-				jobs = append(jobs, job{id, k})
+				jobs = append(jobs, job{id, k, 0})
+			}
+			for _, p := range req.Padlens {
+				jobs = append(jobs, job{id, 0, p})
 			}
 		}
 		res := make([]map[string]any, len(jobs))
 		hlib.Parallel(len(jobs), func(i int) {
 			j := jobs[i]
 			ev := map[string]any{"ev": "JsonHello", "id": j.id, "k": j.k, "orig": []int{}, "types": []int{}, "json": []int{}, "renderr": "", "jsonerr": "", "rawerr": "",
-				"a": []int{}, "b": []int{}, "sni": hlib.Ints([]byte(req.SNI))}
+				"a": []int{}, "b": []int{}, "sni": hlib.Ints([]byte(req.SNI)), "padlen": j.pad}
 			res[i] = ev
 			defer func() {
 				if p := recover(); p != nil {
@@ -336,6 +341,13 @@ func init() {
 			if orig == nil {
 				ev["rawerr"] = "parrot sent no hello"
 				return
+			}
+			if j.pad > 0 {
+				// the ClientHello to be described carries a padding extension of exactly j.pad bytes
+				if orig, err = withPadding(orig, j.pad); err != nil {
+					ev["rawerr"] = "withPadding: " + err.Error()
+					return
+				}
 			}
 			ev["orig"] = hlib.Ints(orig)
 			if p, err := parseHello(orig); err == nil {
@@ -377,4 +389,41 @@ func init() {
 		}
 		return nil
 	})
+}
+
+// withPadding returns the ClientHello hs with its padding extension (type 21) set to n zero bytes; a hello without one
+// gets it appended as the last extension. Only lengths are recomputed.
+func withPadding(hs []byte, n int) ([]byte, error) {
+	p, err := parseHello(hs)
+	if err != nil {
+		return nil, err
+	}
+	s := cryptobyte.String(hs)
+	var sid, suites, comp cryptobyte.String
+	if !s.Skip(4+2+32) || !s.ReadUint8LengthPrefixed(&sid) || !s.ReadUint16LengthPrefixed(&suites) || !s.ReadUint8LengthPrefixed(&comp) {
+		return nil, fmt.Errorf("hello framing")
+	}
+	fixed := hs[4 : len(hs)-len(s)]
+	var b cryptobyte.Builder
+	b.AddUint8(1)
+	b.AddUint24LengthPrefixed(func(b *cryptobyte.Builder) {
+		b.AddBytes(fixed)
+		b.AddUint16LengthPrefixed(func(b *cryptobyte.Builder) {
+			done := false
+			for _, e := range p.exts {
+				body := e.body
+				if e.typ == 21 {
+					body = make([]byte, n)
+					done = true
+				}
+				b.AddUint16(e.typ)
+				b.AddUint16LengthPrefixed(func(b *cryptobyte.Builder) { b.AddBytes(body) })
+			}
+			if !done {
+				b.AddUint16(21)
+				b.AddUint16LengthPrefixed(func(b *cryptobyte.Builder) { b.AddBytes(make([]byte, n)) })
+			}
+		})
+	})
+	return b.Bytes()
 }
